@@ -218,15 +218,28 @@ def qintBranch (sq x a : Rat) : QintBranch × Rat × Rat :=
   let tMax := tPeak + 10 * sq
   (if x > tMax then .above else if x < tMin then .below else .integrate, tMin, tMax)
 
-/-- `integ tMin x` stands for `Integrate(integrand, tMin, x, Find_Epsilon(…,1e-5))` (external). -/
-def gammaQint (T : Transc) (integ : Rat → Rat → Rat) (x a : Rat) : Except Err Rat :=
+/-- the panel loop (after `fix:` f69671d): `t_left = tMin; while(t_left < x) { t_right = min(x, t_left + sqrt(a));
+    gammaP += Integrate(integrand, t_left, t_right, Find_Epsilon(…,1e-5)); t_left = t_right; }`.
+    `integ l r` stands for the adaptive-Simpson value on one panel (external, C03). -/
+def qintPanels (sq : Rat) (integ : Rat → Rat → Rat) (x : Rat) : Nat → Rat → Rat → Option Rat
+  | 0, _, _ => none
+  | f + 1, tl, acc =>
+    if tl < x then
+      let tr := rmin x (tl + sq)
+      qintPanels sq integ x f tr (acc + integ tl tr)
+    else some acc
+
+def gammaQint (T : Transc) (integ : Rat → Rat → Rat) (fuel : Nat) (x a : Rat) : Except Err Rat :=
   match gammaLn T a with
   | .error e => .error e
   | .ok _ =>
     match qintBranch (T.sqrt a) x a with
     | (.above, _, _) => .ok (1 - 1)
     | (.below, _, _) => .ok (1 - 0)
-    | (.integrate, tMin, _) => .ok (1 - integ tMin x)
+    | (.integrate, tMin, _) =>
+      match qintPanels (T.sqrt a) integ x fuel tMin 0 with
+      | none => .error .fuel
+      | some p => .ok (1 - p)
 
 /-! ## GammaQ / GammaP / incomplete gamma: branch selection -/
 
@@ -259,7 +272,7 @@ def gammaP (E : Parts) (x a : Rat) : Except Err Rat := (gammaQ E x a).map (fun q
 
 /-- the evaluators as coded, from the glue and the loop parameters -/
 def partsOf (T : Transc) (integ : Rat → Rat → Rat → Rat) (eps fpmin : Rat) (fuel : Nat) : Parts :=
-  ⟨gammaPser T eps fuel, gammaQcf T eps fpmin fuel, fun x a => gammaQint T (integ a) x a⟩
+  ⟨gammaPser T eps fuel, gammaQcf T eps fpmin fuel, fun x a => gammaQint T (integ a) fuel x a⟩
 
 /-- `Gamma(s) * GammaQ(x, s)` -/
 def upperGamma (T : Transc) (E : Parts) (x s : Rat) : Except Err Rat :=
